@@ -44,7 +44,8 @@ let gevent_of_tok t =
 let handle case obs =
   match case with
   | "nf" :: _ ->
-    if obs = ["TIMEOUT"] then (["-"], ["terminates"]) else begin
+    if obs = ["TIMEOUT"] then (["-"], ["terminates"])
+    else if List.mem "PANIC" obs then (["-"], ["no_panic"]) else begin
       let evs = List.map event_of_tok obs in
       let failed = names (Model.failed (Model.c11_checks evs)) in
       let model = if Model.explains evs then obs else ["UNEXPLAINED"] in
